@@ -799,4 +799,57 @@ func runC03(c *wk.Ctx) {
 			}
 		}
 	}
+	// IPv4 header checksum over every value of the low 16 destination bits (blocks of 256): the one's complement sum passes
+	// through every carry situation, including the double carry that only a few headers in 65536 produce
+	nb := c.N(4, 64) * 256
+	for b := int64(0); b < nb; b++ {
+		t.idx = 9_000_000_000 + b
+		if !c.Mine(t.idx) {
+			continue
+		}
+		c.Begin(t.idx, "ip4-checksum-sweep", nil)
+		c.Eval()
+		t.checksumBlock(b)
+	}
+}
+
+func (t *c03) checksumBlock(b int64) {
+	c := t.c
+	r := c.Rand("c03sum", b/256)
+	ttl := rb(r)
+	src := netip.AddrFrom4([4]byte{192, 168, rb(r), rb(r)})
+	pl := gen.RandBytes(r, 8+r.Intn(64))
+	proto := []byte{17, 1, 2}[r.Intn(3)]
+	buf := make([]byte, 20+len(pl))
+	for lo := 0; lo < 256; lo++ {
+		dst := netip.AddrFrom4([4]byte{192, 168, byte(b % 256), byte(lo)})
+		cs := map[string]any{"index": t.idx, "chain": "ip4 header checksum sweep", "src": src.String(), "dst": dst.String(), "ttl": ttl, "proto": proto, "payload_len": len(pl)}
+		var ip packet.IP4
+		var err error
+		if pi := c.Guard("C03", func() any { return cs }, func() {
+			for i := range buf {
+				buf[i] = 0
+			}
+			ip = packet.EncodeIP4(buf, ttl, src, dst)
+			if lo%2 == 0 {
+				ip, err = ip.AppendPayload(pl, proto)
+			} else {
+				copy(buf[20:], pl)
+				ip = ip.SetPayload(buf[20:20+len(pl)], proto)
+			}
+		}); pi != nil {
+			return
+		}
+		if err != nil || len(ip) != 20+len(pl) {
+			t.viol("encode:ip4sweep:error", fmt.Sprintf("err=%v len=%d", err, len(ip)), cs)
+			return
+		}
+		if !refdec.Verify1071(ip[:20]) {
+			cs["header_hex"] = wk.Hex(ip[:20])
+			t.viol("encode:ip4-header-checksum", "IPv4 header checksum written by the encoder does not verify (RFC 1071)", cs)
+			return
+		}
+		c.Obs("ip4_headers_checksummed", 1)
+	}
+	c.Class("ip4 checksum sweep")
 }
